@@ -3,6 +3,7 @@ import CppUModel.Model.MockC
 import CppUModel.Spec.MockC
 import CppUModel.Model.MockCNodes
 import CppUModel.Model.MockCReporter
+import CppUModel.Model.MockCActual
 /-!
 Driver for C19.
 
@@ -54,9 +55,12 @@ def tmSup (m : TM) (s meth : String) (args : List Val) : TM × Res Unit Nat :=
     let id := m.next
     let (m, k) := popAns m
     let checked := match k with | .val (.tok "ignored") => false | _ => true
+    -- `MockSupport::actualCall` (statement list regenerated from MockSupport.cpp, `Actual.runSteps`): a checked call
+    -- replaces the scope's last call; an ignored one (mocking disabled / ignoreOtherCalls) finishes and deletes it first
     let last := m.last.filter (·.1 ≠ s)
     ({ m with next := id + 1, kinds := (id, s, checked) :: m.kinds,
-              last := if checked then (s, id) :: last else last }, .ac id)
+              last := if checked then (s, id) :: last
+                      else if Actual.ignoredCallClearsLast then last else m.last }, .ac id)
   else if meth = "clear()" then
     ({ m with last := if s = "" then [] else m.last.filter (·.1 ≠ s) }, .unit)
   else popAns m
@@ -186,15 +190,22 @@ structure DState where
       core (`STRCMP_EQUAL` in MockNamedValue's getters: the test shell's own terminator, the same for both interfaces)) -/
   fails : List (String × List String × List String) := []
 
-/-- the static actual call is the last call of the selected scope (for a call through the actual-call table an
-    ignored call made on the selected scope counts too: both `has` answer "no") -/
-def alignedNow (tbl : Ptr) (st : Core TraceMock) : Bool :=
+def isOrDefault (fw : Fwd) : Bool :=
+  match fw.body with
+  | .orDefault _ _ => true
+  | _ => false
+
+/-- the static actual call is the last call of the selected scope (for a call through the actual-call table, and for
+    every `...OrDefault`, an ignored call made on the selected scope counts too: both `has` answer "no") -/
+def alignedNow (tbl : Ptr) (fw : Fwd) (st : Core TraceMock) : Bool :=
   match st.cur, st.a with
   | some s, some a =>
     match st.m.kinds.find? (fun k => k.1 == a) with
     | some (_, s', checked) =>
       if checked then TraceMock.last st.m s == some a
-      else tbl == .act && s == s' && (TraceMock.last st.m s).isNone
+      -- an ignored call made on the selected scope left no last call there (`disabled_call_leaves_no_last`): the scope
+      -- answers "no return value", so every `...OrDefault` (either table) returns the default without reading the call
+      else (tbl == .act || isOrDefault fw) && s == s' && (TraceMock.last st.m s).isNone
     | none => false
   | _, _ => false
 
@@ -257,7 +268,7 @@ def modelStep (d : DState) (op : List String) (obs : List (List String)) : DStat
       | none => (d, ["call NO-FORWARDER"])
       | some (tbl, fw) =>
         let st0 : Core TraceMock := { d.st with m := { d.st.m with calls := [], ans := answersOf obs, dry := false } }
-        let misaligned := bridged tbl fw && !alignedNow tbl st0
+        let misaligned := bridged tbl fw && !alignedNow tbl fw st0
         let r1 := execCWith forwarderOf Gen.CMock.forwarders TraceMock st0 stmt
         let st1 := r1.1
         let callLine :=
@@ -431,12 +442,19 @@ def findingOf (sh : Shadow) (words : List String) : Option String :=
   let alignedS := match sh.act, sh.cur with
     | some (k, s, true), some c => s == c && lastCur == some k
     | _, _ => false
+  -- the static actual call is an ignored call (mocking disabled / ignoreOtherCalls) made on the selected scope: that scope
+  -- has no last call (MockSupport::actualCall finishes and deletes the previous one first), both interfaces must answer
+  -- "no return value" / the caller's default
+  let ignoredHere := match sh.act, sh.cur with
+    | some (_, s, false), some c => s == c && lastCur.isNone
+    | _, _ => false
   let alignedA := match sh.act, sh.cur with
     | some (_, s, _), some c => s == c
     | _, _ => false
   match words with
   | "S" :: f :: _ =>
-    if (f ∈ getterFields || f ∈ orDefaultFields) && !alignedS then some "support-getter-reads-static-actual-call" else none
+    if f ∈ orDefaultFields && ignoredHere then none
+    else if (f ∈ getterFields || f ∈ orDefaultFields) && !alignedS then some "support-getter-reads-static-actual-call" else none
   | "A" :: f :: _ =>
     if (f = "hasReturnValue" || f ∈ orDefaultFields) && !alignedA then some "actual-hasReturnValue-reads-current-scope" else none
   | _ => none
